@@ -16,10 +16,11 @@ if os.path.exists(res):
     det = sum("DETECTED" in r for r in rows)
     out.append(f"\n{det} of {len(rows)} (mutant, property) pairs detected on two consecutive runs.\n")
 out.append("\n#### Changes written by independent sub-agents (`seeded/<ID>-<X>/`, confirmed and run by `seeded/verify.py`)\n")
-out.append("A/B and E: the author saw only the property text and a scratch worktree (E also the earlier notes). C/D (adversarial "
-           "round): the author was additionally told which bounds the checks enumerate and asked for changes outside them. "
-           "A change that was missed at first has a second record, `meta_before_strengthening.json`, next to `meta.json`; "
-           "`meta_final.json` is the regression run of every change against the final checks.\n\n")
+out.append("A/B, E, F and J: the author saw only the property text and a scratch worktree (E also the earlier notes). C/D, G, H "
+           "and I (adversarial rounds): the author was additionally told which bounds the checks enumerate and asked for "
+           "changes outside them. A change that was missed at first has a second record, `meta_before_strengthening.json`, "
+           "next to `meta.json`; `meta_final.json` is the regression run of every change of rounds A-I against the final "
+           "checks (round J was written afterwards and run against the same checks).\n\n")
 out.append("| change | confirmed (49 tests pass, demo fails with / passes without) | detected by | before strengthening | final regression | signatures | what it needs (from notes.md) |\n|---|---|---|---|---|---|---|\n")
 for d in sorted(glob.glob(os.path.join(V, "seeded", "C*-*"))):
     mp = os.path.join(d, "meta.json")
@@ -47,7 +48,7 @@ for d in sorted(glob.glob(os.path.join(V, "seeded", "C*-*"))):
     final = ""
     if os.path.exists(fp):
         fm = json.load(open(fp))
-        final = ", ".join(fm["detected_by"]) or ("thorough tier only" if fm.get("thorough_tier", {}).get("detected") else "missed by its own check")
+        final = ", ".join(fm["detected_by"]) or ("thorough tier only" if fm.get("thorough_tier", {}).get("detected") else ("reclassified as allowed" if fm.get("reclassified") else "missed by its own check"))
     det = ', '.join(m['detected_by']) or ('thorough tier only' if m.get('thorough_tier', {}).get('detected') else '**missed**')
     out.append(f"| {m['name']} | {'yes' if m['confirmed'] else 'NO'} | {det} | {before} | {final} | {', '.join(sigs)[:160]} | {need.replace('|', '/')} |\n")
 text = "".join(out)
